@@ -126,7 +126,7 @@ def extract(files):
         for mk in find_markers(text):
             mk["file"] = name
             out["markers"].append(mk)
-        L = Lines(text)
+        L = Lines(text, "--")
         L.match(r"-- Code generated by fin-protoc\. DO NOT EDIT\.")
         m = L.match(r'local (%s)_proto = Proto\("(.*)", "(.*) Protocol"\)' % ID)
         if m:
